@@ -328,6 +328,20 @@ class Body:
                     st.append(s)
         return False
 
+    def can_reach_nontrivial(self, src, dst):
+        """path of length >= 1 from src to dst (dst == src means: src lies on a cycle)"""
+        seen = set()
+        st = list(self.succs(src))
+        while st:
+            b = st.pop()
+            if b == dst:
+                return True
+            if b in seen:
+                continue
+            seen.add(b)
+            st.extend(self.succs(b))
+        return False
+
     def reach_from(self, src, avoid=()):
         seen = set()
         st = [src]
@@ -445,6 +459,54 @@ class Body:
                     d[t["dest"]["local"]].append((bb, "term", t))
             self._defs = d
         return self._defs
+
+    def uses(self, local):
+        """statements / terminators (non-cleanup) that read `local` (as operand, place base, index
+        or call argument); drops and storage markers are not uses"""
+        out = []
+
+        def place_uses(pl):
+            if pl["local"] == local:
+                return True
+            return any(e["k"] == "index" and e["local"] == local for e in pl["proj"])
+
+        def op_uses(o):
+            return isinstance(o, dict) and o.get("k") in ("copy", "move") and place_uses(o["place"])
+        for bb, i, st in self.iter_stmts():
+            if st["k"] == "assign":
+                rv = st["rv"]
+                hit = False
+                for key in ("op", "a", "b"):
+                    if op_uses(rv.get(key)):
+                        hit = True
+                if any(op_uses(o) for o in rv.get("ops", [])):
+                    hit = True
+                if "place" in rv and place_uses(rv["place"]):
+                    hit = True
+                # a store *through* the local (projection) reads it too
+                pl = st["place"]
+                if pl["proj"] and place_uses(pl):
+                    hit = True
+                if hit:
+                    out.append((bb, i, st))
+            elif st["k"] == "setdiscr" and place_uses(st["place"]):
+                out.append((bb, i, st))
+        for bb, t in self.iter_terms():
+            k = t["k"]
+            hit = False
+            if k in ("call", "tailcall"):
+                hit = any(op_uses(a) for a in t["args"])
+                if t["callee"]["k"] != "fndef" and op_uses(t["callee"].get("op")):
+                    hit = True
+                if k == "call" and t["dest"]["proj"] and place_uses(t["dest"]):
+                    hit = True
+            elif k == "switch":
+                hit = op_uses(t["discr"])
+            elif k == "assert":
+                hit = op_uses(t["cond"])
+            if hit:
+                out.append((bb, "term", t))
+        return out
 
     def partial_stores(self, local):
         """assignments to a projection of `local`"""
